@@ -92,7 +92,7 @@ func c34JoinDuringLeave() string {
 		c.LeavePropagateDelay = 400 * time.Millisecond
 	})
 	if err != nil {
-		return "node-error"
+		return nodeErr(err)
 	}
 	defer n.Close()
 	done := make(chan struct{})
@@ -117,7 +117,7 @@ func c34JoinDuringLeave() string {
 func c34LeaveStall() string {
 	peer, err := newTestNode(nil)
 	if err != nil {
-		return "node-error"
+		return nodeErr(err)
 	}
 	defer peer.Close()
 	n, err := newTestNode(func(c *serf.Config) {
@@ -126,12 +126,12 @@ func c34LeaveStall() string {
 		c.LeavePropagateDelay = 20 * time.Millisecond
 	})
 	if err != nil {
-		return "node-error"
+		return nodeErr(err)
 	}
 	defer n.Close()
 	addr := fmt.Sprintf("%s/%s:%d", peer.Conf.NodeName, peer.Conf.MemberlistConfig.BindAddr, peer.Conf.MemberlistConfig.BindPort)
 	if _, err := n.S.Join([]string{addr}, false); err != nil || n.S.NumNodes() != 2 {
-		return "node-error"
+		return "env-error" // the set-up join to the helper peer did not complete (loaded machine)
 	}
 	stop := make(chan struct{})
 	var samples []string
@@ -169,7 +169,7 @@ func c34Exec(ops []string) []string {
 	if err != nil {
 		outs := make([]string, len(ops))
 		for i := range outs {
-			outs[i] = "node-error"
+			outs[i] = nodeErr(err)
 		}
 		return outs
 	}
